@@ -24,13 +24,21 @@ pub enum COp {
     Collect,
     Gather,
     Reset,
+    /// persistent local counter `slot` (= thread * 2 + handle): inc_by(2^bit) on the local handle, nothing shared changes
+    LInc { slot: usize, bit: u32 },
+    /// flush local handle `slot`: everything pending on it takes effect at once
+    LFlush { slot: usize },
+    /// clone local handle `from` into `to`: the clone starts with nothing pending
+    LClone { from: usize, to: usize },
+    /// local handle's own get(): the pending amount
+    LGet { slot: usize },
     /// vector-child programs: obtain the handle inside the thread (`with_label_values`), so that
     /// simultaneous first requests race
     Acquire,
 }
 
 #[derive(Clone, PartialEq, Eq, Hash)]
-struct CModel(u64);
+struct CModel(u64, [u64; 8]);
 
 impl Model for CModel {
     type Op = COp;
@@ -43,9 +51,21 @@ impl Model for CModel {
             COp::Reset => self.0 = 0,
             COp::Get | COp::Collect | COp::Gather => return Some(self.0),
             COp::Acquire => {}
+            COp::LInc { slot, bit } => self.1[*slot] += 1u64 << bit,
+            COp::LFlush { slot } => {
+                self.0 += self.1[*slot];
+                self.1[*slot] = 0;
+            }
+            COp::LClone { to, .. } => self.1[*to] = 0,
+            COp::LGet { slot } => return Some(self.1[*slot]),
         }
         None
     }
+}
+
+enum LCtr {
+    F(prometheus::local::LocalCounter),
+    I(prometheus::local::LocalIntCounter),
 }
 
 #[derive(Clone)]
@@ -67,6 +87,8 @@ struct Sys {
     /// lazy mode: every thread obtains its own handle from the vector inside the thread
     lazy: Option<VecK>,
     mine: Vec<std::sync::Arc<std::sync::Mutex<Option<Ctr>>>>,
+    /// persistent local handles, by slot
+    locals: std::sync::Arc<Vec<std::sync::Mutex<Option<LCtr>>>>,
     /// what `collect` is called on (the counter itself or the vector it is a child of)
     coll: std::sync::Arc<dyn Collector>,
     reg: Registry,
@@ -107,6 +129,39 @@ impl Sys {
         let h = self.handle(thread);
         match (op, &h) {
             (COp::Acquire, _) => {}
+            (COp::LInc { slot, bit }, _) => {
+                let mut g = self.locals[*slot].lock().unwrap();
+                if g.is_none() {
+                    *g = Some(match &h {
+                        Ctr::F(c) => LCtr::F(c.local()),
+                        Ctr::I(c) => LCtr::I(c.local()),
+                    });
+                }
+                match g.as_ref().unwrap() {
+                    LCtr::F(l) => l.inc_by((1u64 << bit) as f64),
+                    LCtr::I(l) => l.inc_by(1u64 << bit),
+                }
+            }
+            (COp::LFlush { slot }, _) => match self.locals[*slot].lock().unwrap().as_ref() {
+                Some(LCtr::F(l)) => l.flush(),
+                Some(LCtr::I(l)) => l.flush(),
+                None => {}
+            },
+            (COp::LClone { from, to }, _) => {
+                let c = match self.locals[*from].lock().unwrap().as_ref() {
+                    Some(LCtr::F(l)) => Some(LCtr::F(l.clone())),
+                    Some(LCtr::I(l)) => Some(LCtr::I(l.clone())),
+                    None => None,
+                };
+                *self.locals[*to].lock().unwrap() = c;
+            }
+            (COp::LGet { slot }, _) => {
+                return Some(match self.locals[*slot].lock().unwrap().as_ref() {
+                    Some(LCtr::F(l)) => l.get() as u64,
+                    Some(LCtr::I(l)) => l.get(),
+                    None => 0,
+                })
+            }
             (COp::IncBy(b), Ctr::F(c)) => c.inc_by((1u64 << b) as f64),
             (COp::IncBy(b), Ctr::I(c)) => c.inc_by(1u64 << b),
             (COp::Inc, Ctr::F(c)) => c.inc(),
@@ -143,8 +198,11 @@ impl Property for C01 {
     fn rule(&self) -> &'static str {
         "case = one shared Counter or IntCounter (standalone or a CounterVec/IntCounterVec child, registered), 2-3 threads x 1-5 \
          operations from inc_by(2^i) with a unique bit per increment, inc(), get, Collector::collect, Registry::gather, a local \
-         counter batch followed by flush, reset (<=20% of programs), and a schedule (walk / PCT / window) with up to 3 injected \
-         spurious compare-exchange failures. Oracles: exhaustive linearizability search; for reset-free programs every read decodes \
+         counter batch followed by flush, persistent local handles (35% of programs: inc_by on the handle, flush, clone of the handle \
+         while an amount is pending, the handle's own get; everything still pending is flushed before the thread ends), reset (<=20% \
+         of programs), and a schedule (walk / PCT / window / explicit pre-emption-bounded path) with up to 3 injected spurious \
+         compare-exchange failures; after the generated tier, for a sample of small generated programs EVERY schedule with at most 2 \
+         (thorough: 3) pre-emptions is enumerated and judged by the same oracle. Oracles: exhaustive linearizability search; for reset-free programs every read decodes \
          to a set of increments that contains all increments completed before the read began, none started after it returned, and \
          grows along real-time-ordered reads; after all threads finished value = sum of all increments = collect() = gather(). \
          Non-trivial: a thread was pre-empted between two atomic steps of one increment/flush while >=2 threads touched the \
@@ -163,6 +221,10 @@ impl Property for C01 {
         }
     }
 
+    fn post(&self, tier: Tier, seed: u64, stats: &mut crate::engine::Stats) -> Result<(), (String, String, Vec<u8>)> {
+        crate::exhaust::bounded_enumeration(self, tier, seed, stats)
+    }
+
     fn run(&self, src: &mut Src, rep: &mut Report) -> Verdict {
         let float = src.chance(160);
         let as_child = src.chance(100);
@@ -171,23 +233,23 @@ impl Property for C01 {
             (true, false) => {
                 let c = Counter::new("c", "h").unwrap();
                 reg.register(Box::new(c.clone())).unwrap();
-                Sys { c: Ctr::F(c.clone()), lazy: None, mine: vec![], coll: std::sync::Arc::new(c), reg }
+                Sys { c: Ctr::F(c.clone()), lazy: None, mine: vec![], locals: Default::default(), coll: std::sync::Arc::new(c), reg }
             }
             (false, false) => {
                 let c = IntCounter::new("c", "h").unwrap();
                 reg.register(Box::new(c.clone())).unwrap();
-                Sys { c: Ctr::I(c.clone()), lazy: None, mine: vec![], coll: std::sync::Arc::new(c), reg }
+                Sys { c: Ctr::I(c.clone()), lazy: None, mine: vec![], locals: Default::default(), coll: std::sync::Arc::new(c), reg }
             }
             (true, true) => {
                 let v = CounterVec::new(Opts::new("c", "h"), &["l"]).unwrap();
                 reg.register(Box::new(v.clone())).unwrap();
                 // placeholder handle; replaced after the run in lazy mode
-                Sys { c: Ctr::F(Counter::new("placeholder", "h").unwrap()), lazy: Some(VecK::F(v.clone())), mine: vec![], coll: std::sync::Arc::new(v), reg }
+                Sys { c: Ctr::F(Counter::new("placeholder", "h").unwrap()), lazy: Some(VecK::F(v.clone())), mine: vec![], locals: Default::default(), coll: std::sync::Arc::new(v), reg }
             }
             (false, true) => {
                 let v = IntCounterVec::new(Opts::new("c", "h"), &["l"]).unwrap();
                 reg.register(Box::new(v.clone())).unwrap();
-                Sys { c: Ctr::I(IntCounter::new("placeholder", "h").unwrap()), lazy: Some(VecK::I(v.clone())), mine: vec![], coll: std::sync::Arc::new(v), reg }
+                Sys { c: Ctr::I(IntCounter::new("placeholder", "h").unwrap()), lazy: Some(VecK::I(v.clone())), mine: vec![], locals: Default::default(), coll: std::sync::Arc::new(v), reg }
             }
         };
         let mut sys = sys;
@@ -205,12 +267,27 @@ impl Property for C01 {
         let mut next_bit = if use_inc { 1 } else { 0 };
         let mut inc_used = false;
         let mut prog: Vec<Vec<COp>> = vec![];
-        for _ in 0..nthreads {
+        let persistent_locals = src.chance(90);
+        for t in 0..nthreads {
             let n = 1 + src.below(5);
             let mut ops = vec![];
+            // persistent local handles of this thread: 0 = none yet, 1 = one, 2 = one and its clone
+            let mut nlocal = 0usize;
             for _ in 0..n {
-                let k = src.below(16);
+                let k = src.below(if persistent_locals { 22 } else { 16 });
                 let op = match k {
+                    16..=18 | 19 if k <= 18 || nlocal != 1 => {
+                        let h = if nlocal == 2 { src.below(2) } else { 0 };
+                        nlocal = nlocal.max(1);
+                        next_bit += 1;
+                        COp::LInc { slot: t * 2 + h, bit: next_bit - 1 }
+                    }
+                    19 => {
+                        nlocal = 2;
+                        COp::LClone { from: t * 2, to: t * 2 + 1 }
+                    }
+                    20 => COp::LFlush { slot: t * 2 + if nlocal == 2 { src.below(2) } else { 0 } },
+                    21 => COp::LGet { slot: t * 2 + if nlocal == 2 { src.below(2) } else { 0 } },
                     0..=5 => {
                         next_bit += 1;
                         COp::IncBy(next_bit - 1)
@@ -236,11 +313,16 @@ impl Property for C01 {
                 };
                 ops.push(op);
             }
+            // whatever is still pending on a local handle is flushed before the thread ends
+            for h in 0..nlocal {
+                ops.push(COp::LFlush { slot: t * 2 + h });
+            }
             if lazy_first_touch {
                 ops.insert(0, COp::Acquire);
             }
             prog.push(ops);
         }
+        sys.locals = std::sync::Arc::new((0..8).map(|_| std::sync::Mutex::new(None)).collect());
         sys.mine = (0..nthreads + 1).map(|_| std::sync::Arc::new(std::sync::Mutex::new(None))).collect();
         let total: usize = prog.iter().map(|p| p.len()).sum();
         let threads: Vec<Vec<OpFn<Option<u64>>>> = prog
@@ -272,6 +354,32 @@ impl Property for C01 {
             .iter()
             .map(|o| HOp { op: prog[o.thread][o.idx].clone(), res: o.result.unwrap(), invoke: o.invoke, response: o.response.unwrap() })
             .collect();
+        // what each operation adds to the shared counter (a flush adds what its handle had pending)
+        let mut effect_of: Vec<Vec<u64>> = vec![];
+        for ops in &prog {
+            let mut pend = [0u64; 8];
+            effect_of.push(
+                ops.iter()
+                    .map(|op| match op {
+                        COp::IncBy(b) => 1u64 << b,
+                        COp::Inc => 1,
+                        COp::LocalFlush(bits) => bits.iter().map(|b| 1u64 << b).sum(),
+                        COp::LInc { slot, bit } => {
+                            pend[*slot] += 1u64 << bit;
+                            0
+                        }
+                        COp::LClone { to, .. } => {
+                            pend[*to] = 0;
+                            0
+                        }
+                        COp::LFlush { slot } => std::mem::take(&mut pend[*slot]),
+                        _ => 0,
+                    })
+                    .collect(),
+            );
+        }
+        let mut effects: Vec<u64> = exec.ops.iter().map(|o| effect_of[o.thread][o.idx]).collect();
+        effects.push(0);
         let last = exec.trace.len() + 1;
         // final reads by the main thread (slot `nthreads`): in lazy mode through a fresh request to the vector
         let fin_get = sys.exec(nthreads, &COp::Get);
@@ -289,31 +397,23 @@ impl Property for C01 {
         if fin_collect != fin_get || fin_gather != fin_get {
             return fail("final-reads-disagree", format!("get={:?} collect={:?} gather={:?} ;; {}", fin_get, fin_collect, fin_gather, describe(&hist)));
         }
-        if linearize(&CModel(0), &hist).is_none() {
+        if linearize(&CModel(0, [0; 8]), &hist).is_none() {
             return fail("not-linearizable", describe(&hist));
         }
         if !prog.iter().any(|p| p.contains(&COp::Reset)) {
             // the subset rules of the statement, checked literally
-            let mask_of = |op: &COp| -> u64 {
-                match op {
-                    COp::IncBy(b) => 1u64 << b,
-                    COp::Inc => 1,
-                    COp::LocalFlush(bits) => bits.iter().map(|b| 1u64 << b).sum(),
-                    _ => 0,
-                }
-            };
-            let all: u64 = hist.iter().map(|h| mask_of(&h.op)).sum();
+            let all: u64 = effects.iter().sum();
             if fin_get != Some(all) {
                 return fail("final-value-not-sum", format!("final {:?} but the increments sum to {:#b} ;; {}", fin_get.map(|v| format!("{:#b}", v)), all, describe(&hist)));
             }
-            let reads: Vec<&HOp<COp, Option<u64>>> = hist.iter().filter(|h| h.res.is_some()).collect();
+            let reads: Vec<&HOp<COp, Option<u64>>> = hist.iter().filter(|h| matches!(h.op, COp::Get | COp::Collect | COp::Gather)).collect();
             for r in &reads {
                 let v = r.res.unwrap();
                 if v & !all != 0 {
                     return fail("read-not-a-subset", format!("read {:#b} contains bits no increment has ;; {}", v, describe(&hist)));
                 }
-                for h in hist.iter() {
-                    let m = mask_of(&h.op);
+                for (hi, h) in hist.iter().enumerate() {
+                    let m = effects[hi];
                     if m == 0 {
                         continue;
                     }
@@ -346,6 +446,15 @@ impl Property for C01 {
         }
         if prog.iter().any(|p| p.iter().any(|o| matches!(o, COp::LocalFlush(_)))) {
             rep.class("with-local-flush");
+        }
+        if prog.iter().any(|p| p.iter().any(|o| matches!(o, COp::LInc { .. }))) {
+            rep.class("with-persistent-local-handle");
+        }
+        for p in &prog {
+            if let Some(k) = p.iter().position(|o| matches!(o, COp::LClone { .. })) {
+                let pending_before = p[..k].iter().rev().take_while(|o| !matches!(o, COp::LFlush { .. })).any(|o| matches!(o, COp::LInc { .. }));
+                rep.class(if pending_before { "local-handle-cloned-while-an-amount-is-pending" } else { "local-handle-cloned-with-nothing-pending" });
+            }
         }
         if prog.iter().any(|p| p.contains(&COp::Reset)) {
             rep.class("with-reset");
